@@ -92,9 +92,36 @@ Definition amount_text (cp : comm -> Z) (st : style) (a : amount) : str :=
       else symbol_text sym ++ (if st_separated st then [32] else []) ++ qt
   end.
 
+(* commodity_t::print with elide_quotes (commodity.cc:360-373): what report columns (justify(), hence the default
+   balance/register formats) show.  Quotes are dropped only from a symbol that is set apart from the number by a
+   space, has no space itself and is not all digits - elsewhere the text would denote another number or symbol. *)
+Definition is_digit (c : Z) : bool := (48 <=? c) && (c <=? 57).
+
+Definition column_symbol_text (st : style) (sym : str) : str :=
+  if needs_quotes sym && st_separated st && negb (existsb (fun c => c =? 32) sym) && negb (forallb is_digit sym)
+  then sym else symbol_text sym.
+
+Definition amount_text_col (cp : comm -> Z) (st : style) (a : amount) : str :=
+  let q := Qred (aq a) in
+  let n := Qnum q in
+  let d := Zpos (Qden q) in
+  let p := display_precision cp a in
+  let N := print_scaled n d p in
+  let qt := quantity_text st true (n <? 0) N p (zeros_prec cp a) in
+  match acomm a with
+  | None => qt
+  | Some sym =>
+      if st_suffixed st
+      then qt ++ (if st_separated st then [32] else []) ++ column_symbol_text st sym
+      else column_symbol_text st sym ++ (if st_separated st then [32] else []) ++ qt
+  end.
+
+(* value_t::print of an AMOUNT (value.cc): an amount that displays as zero is shown as a bare 0 *)
+Definition value_column_text (cp : comm -> Z) (st : style) (a : amount) : str :=
+  if is_zero cp a then [48] else amount_text_col cp st a.
+
 (* ----------------------------------------------------------------- reading *)
 
-Definition is_digit (c : Z) : bool := (48 <=? c) && (c <=? 57).
 Definition is_space (c : Z) : bool := (c =? 32) || (c =? 9) || (c =? 10) || (c =? 13) || (c =? 11) || (c =? 12).
 
 (* state of the right-to-left scan of the quantity string (amount.cc:1107-1177) *)
